@@ -326,8 +326,9 @@ structure VerifyAttempt where
   signer : Option Bytes
 deriving DecidableEq, Repr
 
-/-- `_pair_verify_two`: the controller the attempt proves, if any. Reads the state, changes none. -/
-def verifies (parse : Bytes → Option Uuid) (s : PState) (v : VerifyAttempt) : Option Uuid :=
+/-- `_pair_verify_two`: the controller the attempt proves (with the identifier bytes it sent), if any.
+    Reads the state, changes none. -/
+def verifiesAs (parse : Bytes → Option Uuid) (s : PState) (v : VerifyAttempt) : Option (Uuid × Bytes) :=
   if !v.outerOk then none                        -- InvalidTag → M4 authentication error
   else match v.idb with
     | none => none                               -- KeyError → 500
@@ -337,7 +338,19 @@ def verifies (parse : Bytes → Option Uuid) (s : PState) (v : VerifyAttempt) : 
       | some u =>
         match aget s.paired u with
         | none => none                           -- not paired → M4 authentication error
-        | some k => if v.signer = some k then some u else none   -- InvalidSignature / KeyError
+        | some k => if v.signer = some k then some (u, idb) else none   -- InvalidSignature / KeyError
+
+def verifies (parse : Bytes → Option Uuid) (s : PState) (v : VerifyAttempt) : Option Uuid :=
+  (verifiesAs parse s v).map Prod.fst
+
+/-- the only write of pairing data outside `POST /pairings`: after a successful exchange,
+    `if client_uuid not in state.uuid_to_bytes: state.uuid_to_bytes[client_uuid] = client_username`
+    (+ a save) — a back-fill for controllers imported from a state file that did not record the bytes.
+    Bytes that ARE recorded are never touched, whatever spelling the controller used this time. -/
+def backfill (s : PState) (u : Uuid) (idb : Bytes) : PState × Bool :=
+  match aget s.u2b u with
+  | none => ({ s with u2b := aset s.u2b u idb }, true)
+  | some _ => (s, false)
 
 /-- session facts of every connection (connections are numbered) -/
 abbrev Sessions := Nat → Conn
@@ -358,8 +371,8 @@ def sstep (parse : Bytes → Option Uuid) (s : PState) (ss : Sessions) : SOp →
     let o := step parse s (.setup idb key)
     (o.1, ss, some o.2)
   | .verify c v =>
-    match verifies parse s v with
-    | some u => (s, fun c' => if c' = c then ⟨true, some u⟩ else ss c', none)
+    match verifiesAs parse s v with
+    | some (u, idb) => ((backfill s u idb).1, fun c' => if c' = c then ⟨true, some u⟩ else ss c', none)
     | none => (s, ss, none)
   | .req c body =>
     let o := handlePairings parse s ⟨ss c, body⟩
